@@ -5,6 +5,14 @@ import signal
 import subprocess
 
 
+def clip(text, head=2500, tail=2500):
+    """keep the head (where sanitizers print what happened) and the tail of a long stderr"""
+    text = text or ""
+    if len(text) <= head + tail:
+        return text
+    return text[:head] + "\n[...]\n" + text[-tail:]
+
+
 class Crash:
     def __init__(self, rc, stderr, timeout=False):
         self.rc = rc
@@ -51,7 +59,14 @@ def _top_repo_frame(err):
     return ""
 
 
-def _limits(mem_gb):
+def is_sanitized(exe):
+    return "/asan-" in exe or "tsan-" in exe or "/fuzz-" in exe
+
+
+def _limits(mem_gb, exe=None):
+    if exe is not None and is_sanitized(exe):
+        mem_gb = None       # sanitizers reserve terabytes of address space: they get an RSS limit through ASAN_OPTIONS instead
+
     def f():
         if mem_gb:
             lim = int(mem_gb * (1 << 30))
@@ -65,7 +80,7 @@ def _limits(mem_gb):
 
 def san_env(extra=None):
     e = dict(os.environ)
-    e["ASAN_OPTIONS"] = "abort_on_error=1:detect_leaks=0:handle_abort=0:allocator_may_return_null=1"
+    e["ASAN_OPTIONS"] = "abort_on_error=1:detect_leaks=0:handle_abort=0:allocator_may_return_null=1:hard_rss_limit_mb=3000"
     e["UBSAN_OPTIONS"] = "print_stacktrace=1"
     e["TSAN_OPTIONS"] = "halt_on_error=0:second_deadlock_stack=1"
     if extra:
@@ -100,7 +115,7 @@ def run_lines(exe, lines, per_line_timeout=5.0, args=(), env=None, mem_gb=None, 
         if n == len(chunk) and rc == 0:
             break
         if n < len(chunk):
-            out[i + n] = Crash(rc, se[-4000:], to)
+            out[i + n] = Crash(rc, clip(se), to)
             crashes += 1
             i = i + n + 1
             if crashes >= max_crashes:
